@@ -236,21 +236,21 @@ func (c *Ctx) Finish(verifDir string, ff *FindingsFile, wall float64, extra map[
 		inst[k] = map[string]int{"matched": v, "floor": c.Floor[k]}
 	}
 	cov := map[string]any{
-		"explanation":        c.Check.Explanation,
-		"obligations":        len(c.Obls),
-		"discharged":         discharged,
-		"known_findings":     len(seenKnown),
+		"explanation":         c.Check.Explanation,
+		"obligations":         len(c.Obls),
+		"discharged":          discharged,
+		"known_findings":      len(seenKnown),
 		"obligations_by_rule": perRule,
-		"functions_analysed": fnames,
-		"functions_count":    len(fnames),
-		"call_sites":         c.Sites,
-		"instances":          inst,
-		"samples":            samples,
-		"packages_loaded":    len(c.P.Roots),
-		"checker_cmd":        "bin/rqcheck -prop " + c.Check.ID + " -tier " + c.Tier,
-		"trusted_base":       []string{"go/types", "go/ssa", "go/cfg", "x/tools VTA call graph (reflection and cgo callbacks are outside it)", "reference tables in DESIGN.md appendix A", "hashicorp/raft, go-sqlite3, SQLite behave as documented"},
-		"exhaustive":         true,
-		"notes":              c.Notes,
+		"functions_analysed":  fnames,
+		"functions_count":     len(fnames),
+		"call_sites":          c.Sites,
+		"instances":           inst,
+		"samples":             samples,
+		"packages_loaded":     len(c.P.Roots),
+		"checker_cmd":         "bin/rqcheck -prop " + c.Check.ID + " -tier " + c.Tier,
+		"trusted_base":        []string{"go/types", "go/ssa", "go/cfg", "x/tools VTA call graph (reflection and cgo callbacks are outside it)", "reference tables in DESIGN.md appendix A", "hashicorp/raft, go-sqlite3, SQLite behave as documented"},
+		"exhaustive":          true,
+		"notes":               c.Notes,
 	}
 	for k, v := range extra {
 		cov[k] = v
